@@ -150,4 +150,32 @@ Proof.
   - unfold ret in H. apply (f_equal snd) in H. cbn [snd] in H. rewrite <- H. cbn [o_trace]. eexists. eexists. reflexivity.
 Qed.
 
+(* ---------- C11 / C20: the error back-off ends at once when the role is lost ---------- *)
+(* workflow.go runOnce, the wait after an error, for EVERY state: a process parked in its error back-off whose lease is gone (role
+   revoked, workflow stopped, instance crashed) does not sleep the back-off out — at its next step the wait comes back cancelled,
+   the role is released and the process is back to asking for its role, without a single adapter call; with the lease intact
+   it stays parked until the deadline and then likewise goes back to asking for its role *)
+Theorem backoff_step inst u d s :
+  proc_op c inst u (PBackoff d) s =
+  if negb (o_lease s && negb (o_dead s))
+  then (emit (TCall KTW [d] RCancel []) ;;; m_release u inst ;;; ret PIdle) s
+  else if d >? w_now (o_w s)
+       then (emit (TCall KTW [d] RBlocked []) ;;; ret (PBackoff d)) s
+       else (emit (TCall KTW [d] ROk []) ;;; m_release u inst ;;; ret PIdle) s.
+Proof.
+  unfold proc_op. unfold bind at 1, get_w. cbn [fst snd]. unfold bind at 1, lease_live. cbn [fst snd].
+  destruct (o_lease s && negb (o_dead s)); cbn [negb]; [|reflexivity].
+  destruct (d >? w_now (o_w s)); reflexivity.
+Qed.
+
+Theorem backoff_cancelled_when_role_lost inst u d s :
+  o_lease s && negb (o_dead s) = false ->
+  fst (proc_op c inst u (PBackoff d) s) = Ok PIdle /\
+  o_w (snd (proc_op c inst u (PBackoff d) s)) = release_role (o_w s) u inst /\
+  o_trace (snd (proc_op c inst u (PBackoff d) s)) = (if o_dead s then o_trace s else TCall KTW [d] RCancel [] :: o_trace s).
+Proof.
+  intros Hl. rewrite backoff_step, Hl. cbn [negb].
+  unfold bind, emit, m_release, get_w, put_w, ret. destruct (o_dead s) eqn:Hd; cbn [fst snd o_w o_trace o_dead]; repeat split.
+Qed.
+
 End T.
